@@ -86,6 +86,20 @@ fn c02_case(ctx: &Ctx, case: u64, acc: &mut Acc) -> Verdict {
     let last = form(&mut sim, n, join, 2 * p, acc, &mut safety)?;
     // joining is over once every Feed has been delivered
     sim.run_until(last + R, acc, &mut safety)?;
+    // "... or returns an error from any call": a legal reconfiguration at runtime is such a call (the very same
+    // configuration again, or another max_transmissions / fan-out)
+    for _ in 0..2 {
+        let i = sim.rng.usize(n);
+        let mut c2 = sim.nodes[i].node.cfg.clone();
+        match sim.rng.below(3) {
+            0 => {}
+            1 => c2.tx = sim.rng.range(1, 10) as u8,
+            _ => c2.k = sim.rng.range(1, 4) as usize,
+        }
+        let rec = sim.call(i, Op::SetConfig(c2), acc)?;
+        safety(&sim, i, &rec)?;
+        acc.tally("runtime_reconfigurations", 1);
+    }
     let mut related = vec![];
     for i in 0..n {
         for j in (i + 1)..n {
